@@ -6,6 +6,10 @@
     parse <bytes>                     schema.Parse vs the parser model
     expr  <bytes> <k> <leaf>*k <tree> a document with one permission whose body renders <tree>
                                       (a TS expression over atoms 0..k-1): truth tables
+    refparse <bytes> <a> <b> <kind> <reject|accept>
+                                      a document in which the reference token at bytes [a,b) was replaced by an
+                                      undeclared name (or a traverse-target counterpart): parse columns plus the
+                                      position the error must point at (`blame`)
 
   leaf := c <name> | t <rel> <crel>          tree := a <i> | n tree | A tree tree | O tree tree | g tree
 -/
@@ -100,6 +104,7 @@ def parseCols (s : List UInt8) (r : ParseResult) : String :=
     "offs=" ++ ";".intercalate (shown.map fun e => s!"{e.start}-{e.stop}"),
     "meta=" ++ String.join (rendered.map fun x => b01 x.metaError),
     s!"panic={b01 (r.panic || rpanic)}",
+    "hang=0",
     "endpoints_agree=1",
     s!"len={s.length}", s!"rows={rowCount s}", s!"nitems={r.nItems}", s!"lsteps={r.lexSteps}", s!"psteps={r.parseSteps}",
     s!"steps={r.lexSteps + r.parseSteps}", s!"tcsteps={r.tcSteps}"]
@@ -166,12 +171,57 @@ def handleExpr (s : List UInt8) (leaves : List Child) (e : TS.E Nat) : String :=
   parseCols s r ++ "\t" ++ "\t".intercalate [
     s!"tt={tt}", s!"ts={ts}", s!"l2r={lr}", s!"mixed={b01 (TS.mixed e)}", s!"dneg={b01 (TS.doubleNeg e)}"]
 
+/-! ### refparse: one reference of an accepted document replaced (C11, converse) -/
+
+def rangeStr (s : List UInt8) (a b : Nat) : String :=
+  let x := toSrcPos s a
+  let y := toSrcPos s b
+  s!"{x.line}:{x.col}-{y.line}:{y.col}"
+
+/-- `TypeCheck.blame` of Keto/Proofs/TypecheckLemmas.lean (the item every error of the check
+    points at, `C11_tc_rejects_at`), repeated here because the driver links Model and Spec only. -/
+def blameOf (nss : List Namespace) : TypeCheck → Item
+  | .nsExists ns => ns
+  | .nsHasRelation ns rel => if (findNsT nss (bstr ns.val)).isSome then rel else ns
+  | .curNsHasRelation _ rel => rel
+  | .allTypesHaveRelation _ relType _ => relType
+
+def itemAt (i : Item) (a b : Nat) : Bool := i.start == a && i.stop == b
+
+/-- Does the deferred check concern the reference token at `[a, b)` (whose text is `name`)?
+    The target of a traverse is kept by the check only as a string. -/
+def checkConcerns (a b : Nat) (name : String) : TypeCheck → Bool
+  | .nsExists ns => itemAt ns a b
+  | .nsHasRelation ns rel => itemAt ns a b || itemAt rel a b
+  | .curNsHasRelation _ rel => itemAt rel a b
+  | .allTypesHaveRelation _ relType rel => itemAt relType a b || rel == name
+
+def handleRefParse (s : List UInt8) (a b : Nat) (expect : String) : String :=
+  let r := parse s
+  let syn := parseItems (lex s.toArray).items
+  let name := bstr ((s.drop a).take (b - a))
+  -- the checks in the order they were added
+  let blame := match syn.checks.reverse.find? (checkConcerns a b name) with
+    | some c => let i := blameOf syn.nss c; rangeStr s i.start i.stop
+    | none => "none"
+  parseCols s r ++ "\t" ++ "\t".intercalate [
+    s!"mut={rangeStr s a b}", s!"mustreject={b01 (expect == "reject")}", s!"mustaccept={b01 (expect == "accept")}",
+    s!"blame={blame}"]
+
 def pOplOp : P String := do
   let op ← tok
   if op == "lex" then return handleLex (← bytesTok)
   else if op == "parse" then
     let s ← bytesTok
     return parseCols s (parse s)
+  else if op == "refparse" then
+    let s ← bytesTok
+    let a ← nat
+    let b ← nat
+    let _kind ← tok
+    let expect ← tok
+    if a ≤ b && b ≤ s.length && (expect == "reject" || expect == "accept") then return handleRefParse s a b expect
+    else failure
   else if op == "expr" then
     let s ← bytesTok
     let leaves ← counted pLeaf
